@@ -50,6 +50,9 @@ def cfgs(tier):
         dict(base, qd='MIN-SR-FLEX', M=[2], NP=1, maxiter=2, restol=-1.0, blocks=2, nsweeps=2),
         # a user hook with an extended entry class
         dict(base, M=[2], NP=2, maxiter=2, restol=-1.0, blocks=2, exthook=True),
+        # a shipped convergence controller that carries state into the problem (solver tolerance set from the residual after every iteration, iteration 0 included)
+        dict(base, M=[2], NP=1, maxiter=2, restol=-1.0, blocks=2, inexact=True, xrange=[0.5, 1.0]),
+        dict(base, M=[2], NP=2, maxiter=2, restol=-1.0, blocks=2, inexact=True, jac=False, xrange=[0.5, 1.0]),
     ]
     if tier != 'quick':
         out += [
@@ -178,7 +181,7 @@ def scenario_case(rep, scenario, cfg):
             _, u1, s1, _ = run_once(c, cfg, xs=xs)
             ctlA, _A = wr.build(cfg)
             other = dict(cfg, M=[3] if len(cfg['M']) == 1 else [3, 2], NP=max(1, cfg['NP'] - 1) if cfg['NP'] > 1 else 2, maxiter=cfg['maxiter'] + 1,
-                         hooks=[ExtraHook], initial_guess='spread')
+                         hooks=[ExtraHook], initial_guess='spread', inexact=False)
             ctlB, _B = wr.build(other)
             EC = ExtraStatus(ctlB, {}, ctlB.description)
             ctlB.convergence_controllers.append(EC)
